@@ -49,7 +49,10 @@ def one_case(terms: dict, h: str, mode: str, grp: t.Optional[tuple], l2: bytes, 
     try:
         if mode == "nonce":
             seed, _ = _envs(h, "DH", l2, b"", 512, 2048, b"")
+            if eph is not None:      # a chosen nonce (forall nonces: also ones that look like something else, e.g. a CNG key blob magic)
+                g.os = types.SimpleNamespace(urandom=lambda n: eph[:n].ljust(n, b"\x5a"))
             kek_enc, kid = seed.new_kek()
+            g.os = real_os
             kek_dec = seed.get_kek(kid)
             ref = ev.eval_term(terms["nonce"][h], {"L2": l2, "nonce": kid.key_info})
             row.update(encEqDec=kek_enc == kek_dec, decEqRef=kek_dec == ref, encEqRef=kek_enc == ref, keyInfoOK=len(kid.key_info) == 32 and not kid.is_public_key)
@@ -171,6 +174,9 @@ def run(ctx: Ctx) -> int:
     for h in HASHES:
         for _ in range(ctx.pick(20, 300)):
             rows.append(one_case(terms, h, "nonce", None, rng.randbytes(64), None, len(rows)))
+        for lead in (b"DHPB", b"ECK1", b"ECK3", b"ECK5", b"KDSK", b"\x00" * 32, b"\xff" * 32, b"\x01\x00\x00\x00", b"DHPM", b"\x30\x82"):
+            rows.append(one_case(terms, h, "nonce", None, rng.randbytes(64), lead + rng.randbytes(32 - len(lead)) if len(lead) < 32 else lead, len(rows)))
+            ctx.distinct((h, "nonce-lead", lead))
         # small groups: every residue class of the ephemeral exponent for p = 23, sampled for the others
         for grp in SMALL_GROUPS:
             p = grp[0]
